@@ -86,6 +86,13 @@ def classify(div, policy):
         if div['code_ok'] and not div['spec_ok']:
             if fails & og or '*' in og:
                 return 'violation', 'accepted although guard(s) %s fail' % sorted(fails & og or fails)
+            # "refused calls change nothing": a call the specification refuses (whoever owns the guard) that went
+            # through and moved state this property owns
+            fields_ = [d['field'] for d in div.get('diffs', [])]
+            own_ = list(policy.get('fields', [])) + list(policy.get('act_fields', {}).get(div.get('act', {}).get('name'), []))
+            mine_ = [f for f in fields_ if owned_field(f, own_)]
+            if mine_:
+                return 'violation', 'a call the specification refuses (%s) went through and changed %s' % (sorted(fails), mine_)
             return 'foreign', 'accepted although foreign guard(s) %s fail' % sorted(fails)
         # spec accepts, code rejects: charged only through the control rule
         c = div.get('control_ok')
@@ -253,6 +260,28 @@ def graph_job(prop, tier, seed, job, policy, known, acc):
             for i, dv in labelled.get(r['walk'], []):
                 if i < upto and dv in dev_ids:
                     acc['known'].setdefault(dev_ids[dv]['id'], dev_ids[dv])
+    soft_seen = set()
+    for r in results:
+        for d_ in (r.get('init_soft') or []):
+            f_ = d_['field'].split('.')[0]
+            if f_ in soft_seen:
+                continue
+            soft_seen.add(f_)
+            owned = f_ in policy.get('fields', []) or f_ in job.get('init_fields', [])
+            reason = 'the freshly deployed contract does not report what it was constructed with / what it derives: %s = %s' % (f_, str(d_.get('code'))[:300])
+            if owned:
+                div0 = {'kind': 'init', 'step': -1, 'diffs': [d_], 'act': None}
+                if walks_by_id is None:
+                    walks_by_id = {}
+                    with open(wpath) as f:
+                        f.readline()
+                        for l in f:
+                            w = json.loads(l)
+                            walks_by_id[w['id']] = w
+                path = write_replay_file(prop, tier, seed, module, inst, walks_by_id[r['walk']], {'divergence': div0}, 'violation', reason)
+                acc['violations'].append({'replay': path, 'reason': reason, 'spec': spec, 'act': None})
+            else:
+                acc['foreign'].append({'spec': spec, 'kind': 'init', 'act': None, 'reason': reason})
     for r in results:
         nsteps += r['steps_run']
         if r.get('harness_error'):
